@@ -2107,6 +2107,109 @@ def fresh9 : Option ((Nat × Nat × Nat) × Option Nat × List Nat) :=
 
 end W
 
+/-! ### Initialiser expressions -/
+
+/-- No reference to a variable of the instance being initialised. -/
+def IExpr.closed : IExpr → Bool
+  | .loc _ => false
+  | .add a b => a.closed && b.closed
+  | .mul a b => a.closed && b.closed
+  | _ => true
+
+/-- A closed expression reads the globals only. -/
+theorem IExpr.eval_congr (e : IExpr) (s s' : Storage) (id id' : Nat) (hc : e.closed = true)
+    (hg : s'.globals = s.globals) : e.eval s' id' = e.eval s id := by
+  induction e with
+  | lit k => rfl
+  | glob n => simp [IExpr.eval, Storage.getGlobal, hg]
+  | loc n => simp [IExpr.closed] at hc
+  | add a b iha ihb =>
+    simp only [IExpr.closed, Bool.and_eq_true] at hc
+    simp [IExpr.eval, iha hc.1, ihb hc.2]
+  | mul a b iha ihb =>
+    simp only [IExpr.closed, Bool.and_eq_true] at hc
+    simp [IExpr.eval, iha hc.1, ihb hc.2]
+
+/-- `init_var_defaults` evaluates a closed initialiser expression over the globals of the storage
+it starts from, and the variable keeps that value (coerced to its declared type). -/
+theorem initVars_expr (fbs : List FbDef) (id : Nat) (vars : List VarDef) :
+    ∀ (s s' : Storage), initVars fbs s id vars = .ok s' → id < s.nextId →
+      (s.getInstance id).isSome → (vars.map (·.name)).Nodup →
+      ∀ d, d ∈ vars → ∀ ty e, d.init = .expr ty e → e.closed = true →
+        ∃ k, e.eval s 0 = some k ∧ s'.getInstVar id d.name = some (.num ty k) := by
+  induction vars with
+  | nil => intro s s' _ _ _ _ d hd; cases hd
+  | cons d0 rest ih =>
+    intro s s' h hid hsome hnd d hd ty e hi hc
+    simp only [List.map_cons, List.nodup_cons] at hnd
+    simp only [initVars] at h
+    cases hd0 : d0.init with
+    | plain v =>
+      simp only [hd0] at h
+      rcases List.mem_cons.1 hd with rfl | hmem
+      · rw [hd0] at hi; cases hi
+      · obtain ⟨k, h1, h2⟩ := ih _ _ h (by simpa using hid)
+          (by rw [isSome_getInstance_setInstVar]; exact hsome) hnd.2 d hmem ty e hi hc
+        exact ⟨k, by rw [← h1]; exact (IExpr.eval_congr e _ _ 0 0 hc (by simp)).symm, h2⟩
+    | ext =>
+      simp only [hd0] at h
+      rcases List.mem_cons.1 hd with rfl | hmem
+      · rw [hd0] at hi; cases hi
+      · exact ih _ _ h hid hsome hnd.2 d hmem ty e hi hc
+    | expr ty0 e0 =>
+      simp only [hd0] at h
+      cases he : e0.eval s id with
+      | none => simp [he] at h
+      | some k0 =>
+        simp only [he] at h
+        have hpres := initVars_preserve fbs id rest _ _ h (by simpa using hid)
+        rcases List.mem_cons.1 hd with rfl | hmem
+        · rw [hd0] at hi
+          injection hi with e1 e2
+          subst e1; subst e2
+          refine ⟨k0, ?_, ?_⟩
+          · rw [← he]; exact (IExpr.eval_congr _ s s 0 id hc rfl).symm
+          · rw [hpres.2.2.2.2.1 _ hnd.1]
+            exact getInstVar_setInstVar_same _ _ _ _ hsome
+        · obtain ⟨k, h1, h2⟩ := ih _ _ h (by simpa using hid)
+            (by rw [isSome_getInstance_setInstVar]; exact hsome) hnd.2 d hmem ty e hi hc
+          exact ⟨k, by rw [← h1]; exact (IExpr.eval_congr e _ _ 0 0 hc (by simp)).symm, h2⟩
+    | fb tyf =>
+      simp only [hd0] at h
+      cases hcr : createFbInstance fbs s tyf with
+      | error e => simp [hcr] at h
+      | ok r =>
+        obtain ⟨s1, nid⟩ := r
+        simp only [hcr] at h
+        obtain ⟨fb, hfind, hnid, hnext, hext, hinst⟩ := createFbInstance_spec fbs s s1 tyf nid hcr
+        rcases List.mem_cons.1 hd with rfl | hmem
+        · rw [hd0] at hi; cases hi
+        · obtain ⟨k, h1, h2⟩ := ih _ _ h (by simp; omega)
+            (by rw [isSome_getInstance_setInstVar, hext.old id hid]; exact hsome) hnd.2 d hmem ty e hi hc
+          exact ⟨k, by rw [← h1]; exact (IExpr.eval_congr e _ _ 0 0 hc (by simp [hext.globals])).symm, h2⟩
+
+/-- `create_program_instance`: every closed initialiser expression is evaluated over the globals
+of the storage the instance is created in. -/
+theorem createProgramInstance_expr (fbs : List FbDef) (s s' : Storage) (p : ProgDef) (id : Nat)
+    (h : createProgramInstance fbs s p = .ok (s', id)) (hnd : (p.vars.map (·.name)).Nodup)
+    (d : VarDef) (hd : d ∈ p.vars) (ty : Nat) (e : IExpr) (hi : d.init = .expr ty e)
+    (hc : e.closed = true) :
+    ∃ k, e.eval s 0 = some k ∧ s'.getInstVar id d.name = some (.num ty k) := by
+  unfold createProgramInstance at h
+  simp only [id_createInstance] at h
+  cases hiv : initVars fbs (s.createInstance p.name).1 s.nextId p.vars with
+  | error e => rw [hiv] at h; cases h
+  | ok s2 =>
+    rw [hiv] at h
+    dsimp only at h
+    injection h with h
+    injection h with h1 h2
+    subst h1; subst h2
+    obtain ⟨k, a, b⟩ := initVars_expr fbs s.nextId p.vars _ _ hiv (by simp)
+      (by rw [getInstance_createInstance]; simp) hnd d hd ty e hi hc
+    exact ⟨k, by rw [← a]; exact (IExpr.eval_congr e _ _ 0 0 hc (by simp)).symm, b⟩
+
+
 /-! ### The restart signal: no request is lost -/
 
 /-- The newest request still in the pipeline (a blocked requester, the slot, the request being
